@@ -107,7 +107,8 @@ def _expr(a, b, c, shape):
     t = SHAPES[shape](BIN_OPS[a], BIN_OPS[b], BIN_OPS[c])
     text = formulas.Parser().ast('=' + spell(t))[1][-1].get_expr
     again = formulas.Parser().ast('=' + text)[1][-1].get_expr
-    return text == again
+    # parses back to itself, and IS the formula that was written (empty arguments kept, quotes doubled)
+    return text == again and text == full(t).replace('A1', 'A1')
 
 
 BP = __BP__       # pools of the second / third operator index (tier dependent)
